@@ -490,6 +490,8 @@ def load_corpus_files():
 
 def run_cases(ctx, cases, use_model=True, storages=STORAGES, procs=1):
     """cases: list of op lists. Every case is run on every storage class."""
+    if os.environ.get('VERIF_PROCS'):      # e.g. VERIF_PROCS=1 for coverage measurements (everything in-process)
+        procs = int(os.environ['VERIF_PROCS'])
     res = core.Result()
     jobs = []
     for ops in cases:
